@@ -138,16 +138,45 @@ type Pkt struct {
 }
 
 func (p Pkt) String() string {
-	return fmt.Sprintf("%s%+v", TypeName(p.Type), struct {
-		DUP                bool
-		QoS, TIT           byte
-		Retain             bool
-		TopicID, MsgID     uint16
-		RC                 byte
-		Dur                uint16
-		Name               string
-		DataLen, ClientLen int
-	}{p.DUP, p.QoS, p.TIT, p.Retain, p.TopicID, p.MsgID, p.RC, p.Duration, p.TopicName, len(p.Data), len(p.ClientID)})
+	n := TypeName(p.Type)
+	switch p.Type {
+	case CONNECT:
+		return fmt.Sprintf("%s(id=%q dur=%d will=%v clean=%v)", n, p.ClientID, p.Duration, p.Will, p.Clean)
+	case CONNACK, WILLTOPICRESP, WILLMSGRESP:
+		return fmt.Sprintf("%s(rc=%d)", n, p.RC)
+	case AUTH:
+		return fmt.Sprintf("%s(method=%q data=%q)", n, p.Method, p.Data)
+	case WILLTOPIC, WILLTOPICUPD:
+		if p.EmptyForm {
+			return n + "(empty)"
+		}
+		return fmt.Sprintf("%s(%q qos=%d retain=%v)", n, p.TopicName, p.QoS, p.Retain)
+	case WILLMSG, WILLMSGUPD:
+		return fmt.Sprintf("%s(len=%d)", n, len(p.Data))
+	case REGISTER:
+		return fmt.Sprintf("%s(tid=%d mid=%d name=%q)", n, p.TopicID, p.MsgID, p.TopicName)
+	case REGACK, PUBACK:
+		return fmt.Sprintf("%s(tid=%d mid=%d rc=%d)", n, p.TopicID, p.MsgID, p.RC)
+	case PUBLISH:
+		return fmt.Sprintf("%s(tit=%d tid=%d qos=%d dup=%v retain=%v mid=%d len=%d)", n, p.TIT, p.TopicID, p.QoS, p.DUP, p.Retain, p.MsgID, len(p.Data))
+	case PUBCOMP, PUBREC, PUBREL, UNSUBACK:
+		return fmt.Sprintf("%s(mid=%d)", n, p.MsgID)
+	case SUBSCRIBE, UNSUBSCRIBE:
+		if p.TIT == TITNormal {
+			return fmt.Sprintf("%s(name=%q qos=%d mid=%d dup=%v)", n, p.TopicName, p.QoS, p.MsgID, p.DUP)
+		}
+		return fmt.Sprintf("%s(tit=%d tid=%d qos=%d mid=%d dup=%v)", n, p.TIT, p.TopicID, p.QoS, p.MsgID, p.DUP)
+	case SUBACK:
+		return fmt.Sprintf("%s(tid=%d mid=%d rc=%d qos=%d)", n, p.TopicID, p.MsgID, p.RC, p.QoS)
+	case PINGREQ:
+		return fmt.Sprintf("%s(id=%q)", n, p.ClientID)
+	case DISCONNECT:
+		if p.NoDuration {
+			return n + "()"
+		}
+		return fmt.Sprintf("%s(dur=%d)", n, p.Duration)
+	}
+	return n
 }
 
 func (p Pkt) flags() byte {
